@@ -225,6 +225,34 @@ def root_cause_key(fn, tree, sym, feats, tdncz, pre_ok):
     return key
 
 
+def sympy_assumption_bug(desc, seed):
+    """Diagnosis of a wrong verdict: does sympy's own assumption system (which _compare_to_zero trusts through
+    ``f >= 0`` / ``f <= 0``) claim a sign for the judged expression that brute force refutes?  -> name or None"""
+    from accelforge.mapper.FFM._make_pmappings.make_pmappings_from_templates import make_tile_shapes as MTS
+    import sympy
+
+    names = sorted({b[0] for b in desc["bounds"]} | set(BX.symbols_of(desc["expr"])))
+    syms = {n: MTS.makesymbol(n) for n in names}
+    try:
+        g = to_sympy(desc["expr"], syms)
+        if desc["fn"] == "diff_geq_leq_zero":
+            g = sympy.diff(sympy.expand(g), syms[desc["symbol"]])
+        # the comparator judges the expression with every ceiling replaced by its argument
+        g = g.doit().replace(lambda e: e.is_Function and e.func == sympy.ceiling, lambda e: e.args[0])
+        t = to_tree(g)
+        if BX.features(t)["opaque"] or BX.features(t)["heav"]:
+            return None
+        free = set(BX.symbols_of(t))
+        sc = BX.sign_scan(t, [[n, lo, hi] for n, lo, hi in desc["bounds"] if n in free], seed)
+        if g.is_nonnegative is True and sc["neg"]:
+            return "is_nonnegative"
+        if g.is_nonpositive is True and sc["pos"]:
+            return "is_nonpositive"
+    except Exception:  # noqa: BLE001 - diagnosis only, never changes pass/fail
+        return None
+    return None
+
+
 def _trend_labels(tree, rb, sym, seed):
     """For diff on a formula holding Max/Min: do the arguments of the first Max/Min move in opposite directions along sym?"""
     node = next((n for n in BX.walk(tree) if n[0] in ("max", "min")), None)
@@ -343,6 +371,9 @@ def check(desc, col):
         if bad is None:
             continue
         key = root_cause_key(fn, tree, sym, feats, tdncz, pre_ok)
+        third = sympy_assumption_bug(desc, seed)
+        if third:
+            key = "third-party:sympy-assumption-wrong"
         if fn == "geq_leq_zero":
             what = f"f({dict(zip([b[0] for b in rb], bad[0]))}) = {bad[1]!r}"
         else:
@@ -351,6 +382,7 @@ def check(desc, col):
             f"{fn} [{who}, source {src}] answered {v} for f = {_pretty(desc)}"
             + (f" w.r.t. {sym}" if fn != "geq_leq_zero" else "")
             + f" on box {rb}" + (f" with terms_do_not_cross_zero={tdncz}" if tdncz is not None else "")
+            + (f" [sympy itself reports {third}=True for the judged expression, which the box refutes]" if third else "")
             + f", but {what} (truth on the box: {truth}; {scan['n']} points, {'sampled' if scan['sampled'] else 'exhaustive'}, "
               f"{'exact' if scan['exact'] else 'float64'})", key=key)
 
@@ -409,8 +441,8 @@ def formulas(draw):
         bounds.append([nm, lo, hi])
     hi_of = {b[0]: b[2] for b in bounds}
     family = draw(st.sampled_from(["int", "int", "rat", "flt", "flt"]))
-    kind = draw(st.sampled_from(["sum", "sum", "sum", "halo", "halo", "maxmin", "maxmin", "maxmin", "maxconst", "prodmax",
-                                 "summax", "heav", "heav", "ceil", "ceilmax"]))
+    kind = draw(st.sampled_from(["sum", "sum", "sum", "halo", "halo", "maxmin", "maxmin", "maxmin", "maxconst", "sharedarg",
+                                 "sharedarg", "prodmax", "summax", "heav", "heav", "ceil", "ceilmax"]))
     has_ceil = kind in ("ceil", "ceilmax")
     profile = draw(st.sampled_from(["pos", "pos", "neg"] if has_ceil else ["pos", "pos", "mixed", "mixed", "mixed", "neg"]))
 
@@ -502,6 +534,20 @@ def formulas(draw):
         tree = [op, left, ["int", draw(st.integers(-2, 26))]]
         if draw(st.booleans()):
             tree = ["add", tree, mono()]
+    elif kind == "sharedarg":
+        # Min(c, Max(x/f, 1))-like network terms: the same argument x meets several constants in one formula (and,
+        # the pools being small, across formulas of one process): a stale Min/Max argument-elimination cache shows here
+        a = draw(st.sampled_from(names))
+        form = draw(st.sampled_from(["s", "a*s+h", "a*s+h", "N/s"]))
+        if form == "s":
+            x = ["sym", a]
+        elif form == "a*s+h":
+            x = ["add", ["mul", ["int", draw(st.sampled_from([1, 2, 3]))], ["sym", a]], ["int", draw(st.sampled_from([0, 1, 2]))]]
+        else:
+            x = ["mul", ["int", hi_of[a]], ["pow", ["sym", a], ["int", -1]]]
+        consts = draw(st.lists(st.sampled_from([0, 1, 1, 2, 3, 5, 8, 13, 20, 26]), min_size=2, max_size=3, unique=True))
+        nodes = [["mul", coef(), [draw(st.sampled_from(["max", "min"])), x, ["int", c]]] for c in consts]
+        tree = ["add"] + nodes
     elif kind == "prodmax":
         tree = ["mul", sum_(1, 2), [draw(st.sampled_from(["max", "max", "min"])), sum_(1, 2), sum_(1, 2)]]
     elif kind == "summax":
@@ -724,9 +770,40 @@ def replay(desc, col):
 
 
 REGISTER = True
-MUTANTS = []
+# Mutants M1-M6 were applied on top of regress/C09/suggested_fix.diff (a baseline on which the check is green), M7 with
+# tools/mutate.sh on the unchanged tree (where the two genuine keys are present as well); quick tier, --jobs 5, seed 1.
+MUTANTS = [
+    {"what": "_compare_to_zero: min_check/max_check swapped ((all, any) if check_lt_zero else (any, all))", "caught": True,
+     "note": "key sign:max"},
+    {"what": "_compare_to_zero: f_range.left/right swapped", "caught": True,
+     "note": "keys diff:mixed-sign-sum, diff:posynomial, sign:max, sign:mixed-sign-sum; also with tools/mutate.sh on the unchanged tree"},
+    {"what": "partition_heaviside examines only the all-on branch", "caught": True,
+     "note": "key diff:minmax-derivative-heaviside-branches-replaced-jointly (Max/Min formulas through diff_geq_leq_zero)"},
+    {"what": "_is_connected_cache keyed on x only (stale Min/Max argument elimination)", "caught": True,
+     "note": "survived the first generator (Max(x, c) alone stays monotone whatever is dropped); caught after adding the "
+             "'sharedarg' kind (one argument meeting several constants in Min and Max nodes): keys sign:max+min:tdncz, diff:minmax-..."},
+    {"what": "geq_leq_zero terms_do_not_cross_zero shortcut: min_f > 0 -> min_f >= 0", "caught": True, "note": "key sign:mixed-sign-sum:tdncz"},
+    {"what": "_compare_to_zero: function_range over [lo, lo] instead of [lo, hi]", "caught": True,
+     "note": "keys diff:ceil, diff:mixed-sign-sum, diff:posynomial, sign:max, sign:mixed-sign-sum"},
+    {"what": "unchanged tree: derivative through a ceiling taken as the derivative of its argument (s*ceiling(N/s) 'constant')", "caught": True,
+     "note": "genuine, harvested and grammar sources; key diff:ceiling-of-the-symbol-differentiated-as-identity"},
+    {"what": "unchanged tree: partition_heaviside switches all Heaviside factors together (Max/Min with arguments of opposite trend)", "caught": True,
+     "note": "grammar source only (harvested Max formulas all had same-trend arguments); key diff:minmax-derivative-heaviside-branches-replaced-jointly"},
+    {"what": "unchanged tree + sympy 1.14: (-1 + 1/(a*b)).is_nonnegative is True for positive integer symbols; _compare_to_zero trusts `f >= 0`", "caught": True,
+     "note": "grammar source, rare (about 1 in 2000 formulas; integer coefficients only); key third-party:sympy-assumption-wrong"},
+]
 MANIFEST = {
-    "level_text": "",
-    "level_note": "",
+    "level_text": "Random exploration with a brute-force reference: (a) every sign / monotonicity verdict the real mapper issues "
+                  "(geq_leq_zero, diff_geq_leq_zero wrapped at module level) while exploring tile shapes of generated small specs in five "
+                  "variants (perfect, imperfect temporal/spatial loops, spatial fanout, 1-D convolution), and (b) Hypothesis-generated "
+                  "model-shaped formulas (posynomials, halo factors, ceilings of ratios, Max/Min of sums, Heaviside factors; 1-4 symbols, "
+                  "boxes within [1,12]) are evaluated on every integer point of the box by an independent evaluator; a GEQ/LEQ/EQUAL "
+                  "verdict must hold at every point (sign) or along every lattice line in the symbol (monotonicity); UNKNOWN is accepted "
+                  "and its share reported. No counterexample in N verdicts beyond the listed findings; not a proof.",
+    "level_note": "Trusted: vf/ref/boxeval.py (exact Fractions; float64 with eps 1e-9*magnitude when float literals occur) and the tree<->sympy "
+                  "conversion (harvested formulas are rebuilt and re-judged; a differing fresh verdict is labelled). Boxes above 50 000 points "
+                  "are sampled (corners + 20 000 points). Harvested sign records that hold Derivative/Subs nodes are not judged (their "
+                  "diff record is). Grammar formulas with ceilings keep one coefficient sign; comparator crashes/timeouts on grammar "
+                  "formulas are counted, not reported.",
     "technique": "property-based testing against a brute-force reference (Hypothesis) on harvested and generated inputs",
 }
